@@ -1,5 +1,6 @@
 (** C01 -- Every sent request is concluded exactly once, at its own caller. *)
 From Verif Require Import Base.Prelude M1.Client M1.ClientProofs M1.ClientOwn.
+From Verif Require M1.Server M1.ServerInv M1.ServerOwn.
 
 (** Client endpoint (charge point / charging station), OCPP-J layer, every schedule:
     accepted = concluded ++ still queued, as sequences of request ids (per run of the dispatcher):
@@ -52,3 +53,35 @@ Theorem C01_client_S1_nonvacuous :
   filter (fun e => match e with ECb _ _ _ => true | _ => false end) (tr (run ls (init 2 0))) = [ECb 2 2 0].
 Proof. exact S1_restart_demo. Qed.
 Print Assumptions C01_client_S1_nonvacuous.
+
+(** Server endpoint (central system / CSMS), EVERY schedule, any number of clients: every callback that fires receives the
+    conclusion of the very request it was registered for -- or, when its client's session ends, one "disconnected"
+    conclusion; no conclusion ever finds the client's callback queue empty; no goroutine panics. *)
+Theorem C01_server_own_caller : forall cap d ls, Forall ServerInv.wf_slab ls ->
+  Forall ServerOwn.sown (Server.str (Server.srun ls (Server.sinit cap d))).
+Proof. exact ServerOwn.s_own_caller_S1. Qed.
+Print Assumptions C01_server_own_caller.
+
+(** ... because, in every reachable state, the callbacks registered for a client are, in order, the requests in that
+    client's queue (refused sends and ended sessions leave nothing behind) *)
+Theorem C01_server_callbacks_are_the_queue : forall cap d ls c, Forall ServerInv.wf_slab ls ->
+  let s := Server.srun ls (Server.sinit cap d) in Server.cbs_of s c = ServerOwn.qlist s c.
+Proof. exact ServerOwn.s_callbacks_are_the_queue_S1. Qed.
+Print Assumptions C01_server_callbacks_are_the_queue.
+
+From Verif Require Import M4.Sections M4.SectionsCheck Spec.Concurrency.
+From VerifGen Require Import AccessTable.
+From Coq Require Import String.
+Local Open Scope string_scope.
+
+(** On the table regenerated from the source on every run: CallbackQueue.TryQueue registers the callback, attempts the send
+    and rolls the registration back inside ONE critical section of the queue's lock (the model's Send step is atomic). *)
+Theorem C01_callback_registration_atomic :
+  exists a, a <> 0%Z /\
+    (forall r, In r (sec_rows section_table "internal/callbackqueue.CallbackQueue.TryQueue" "internal/callbackqueue.CallbackQueue.callbacks") ->
+               in_section "internal/callbackqueue.CallbackQueue.callbacksMutex" a r = true) /\
+    (exists r, In r (sec_rows section_table "internal/callbackqueue.CallbackQueue.TryQueue" "internal/callbackqueue.CallbackQueue.callbacks") /\ is_read (kind_of r) = true) /\
+    (exists r, In r (sec_rows section_table "internal/callbackqueue.CallbackQueue.TryQueue" "internal/callbackqueue.CallbackQueue.callbacks") /\ is_write (kind_of r) = true) /\
+    unguarded access_table "internal/callbackqueue.CallbackQueue.TryQueue" "internal/callbackqueue.CallbackQueue.callbacks" "internal/callbackqueue.CallbackQueue.callbacksMutex" = [].
+Proof. apply atomic_sections_meaning. vm_compute. right. left. reflexivity. Qed.
+Print Assumptions C01_callback_registration_atomic.
